@@ -14,19 +14,23 @@ EXTENDS Integers, Sequences, Values
 KindOfType(t) == IF t = "$" THEN "s" ELSE "n"
 
 \* built-in functions: parameter kinds and result kind
-Sig(name) ==
+Sig(name, n) ==
   CASE name = "LEN" -> [ps |-> <<"s">>, r |-> "n"]
     [] name = "UCASE$" -> [ps |-> <<"s">>, r |-> "s"]
     [] name = "LCASE$" -> [ps |-> <<"s">>, r |-> "s"]
     [] name = "LTRIM$" -> [ps |-> <<"s">>, r |-> "s"]
+    [] name = "RTRIM$" -> [ps |-> <<"s">>, r |-> "s"]
     [] name = "LEFT$" -> [ps |-> <<"s", "n">>, r |-> "s"]
     [] name = "RIGHT$" -> [ps |-> <<"s", "n">>, r |-> "s"]
-    [] name = "MID$" -> [ps |-> <<"s", "n", "n">>, r |-> "s"]
-    [] name = "INSTR" -> [ps |-> <<"s", "s">>, r |-> "n"]
+    [] name = "MID$" -> [ps |-> IF n = 2 THEN <<"s", "n">> ELSE <<"s", "n", "n">>, r |-> "s"]
+    [] name = "INSTR" -> [ps |-> IF n = 3 THEN <<"n", "s", "s">> ELSE <<"s", "s">>, r |-> "n"]
     [] name = "STR$" -> [ps |-> <<"n">>, r |-> "s"]
     [] name = "VAL" -> [ps |-> <<"s">>, r |-> "n"]
     [] name = "CHR$" -> [ps |-> <<"n">>, r |-> "s"]
     [] name = "SPACE$" -> [ps |-> <<"n">>, r |-> "s"]
+    [] name = "MKD$" -> [ps |-> <<"n">>, r |-> "s"]
+    [] name = "CVD" -> [ps |-> <<"s">>, r |-> "n"]
+    [] name = "ENVIRON$" -> [ps |-> <<"s">>, r |-> "s"]
 
 RECURSIVE Kind(_), ArgsOK(_, _, _)
 ArgsOK(args, ps, j) ==
@@ -47,7 +51,7 @@ Kind(e) ==
             ELSE IF e.op = "+" THEN (IF a = b THEN a ELSE "err")
             ELSE IF e.op \in RelOps THEN (IF a = b THEN "n" ELSE "err")
             ELSE (IF a = "n" /\ b = "n" THEN "n" ELSE "err")
-    [] e.k = "bcall" -> LET s == Sig(e.n) IN IF ArgsOK(e.args, s.ps, 1) THEN s.r ELSE "err"
+    [] e.k = "bcall" -> LET s == Sig(e.n, Len(e.args)) IN IF ArgsOK(e.args, s.ps, 1) THEN s.r ELSE "err"
     [] e.k = "ucall" -> IF ArgsOK(e.args, e.ps, 1) THEN e.r ELSE "err"
 
 \* a statement: [k |-> "need", e, kind] - expression e stands where kind ("n", "s", "any") is needed
